@@ -179,6 +179,13 @@ end
 /-- a truthiness oracle for abstract values: `some b` = certainly `b`, `none` = keep both. -/
 abbrev Dec := V → Option Bool
 
+/-- what is known about a value after a short-circuit operator returned it *because* its truth value
+was `b` (the compiler turns `a or b` in a condition into jumps, so the outcome is never re-tested) -/
+def narrow (b : Bool) : V → V
+  | .ubool => .bool b
+  | .float _ => .float b
+  | v => v
+
 def bindAll {α β : Type} (xs : List α) (f : α → List β) : List β := xs.flatMap f
 
 mutual
@@ -200,13 +207,13 @@ def evalA (dec : Dec) (env : Env) : Expr → List V
       match dec va with
       | some true => evalA dec env b
       | some false => [va]
-      | none => va :: evalA dec env b
+      | none => narrow false va :: evalA dec env b
   | .or a b =>
     bindAll (evalA dec env a) fun va =>
       match dec va with
       | some true => [va]
       | some false => evalA dec env b
-      | none => va :: evalA dec env b
+      | none => narrow true va :: evalA dec env b
   | .not a =>
     (evalA dec env a).map fun v =>
       match dec v with
